@@ -1,9 +1,105 @@
-/- Line-protocol driver stub: answers every request line with "unimplemented". -/
-partial def loop (h : IO.FS.Stream) (out : IO.FS.Stream) : IO Unit := do
+/-
+  Line-protocol driver of the move-ordering models: SEE (model + minimax spec), the history stores
+  (`FailHigh`, `RankNoisy`, `RankQuiet`, the history stack) and the staged move picker.
+  One request line in, exactly one answer line out.  Core-only.
+
+    fen <FEN>                      -> ok | err | panic          (position of all later requests)
+    valid                          -> 2 bits: Board.valid, Rules.epNormal
+    see <m> <t1,t2,…>              -> <bits of Model.See.see per threshold> <Spec.seeValue> <model caps> <spec caps>
+    new                            -> ok                        (NewMoveRanker)
+    stack <piece:to:score,…|->     -> ok                        (history stack, TOP FIRST)
+    fh <n> <d> <m:w,m:w,…>         -> ok                        (n × FailHigh(d, board, moves, stack))
+    rank <m>                       -> <RankNoisy> <RankQuiet>
+    pick <hm>                      -> m:w,m:w,…                 (yielded entries in order)
+    pickx <hm>                     -> m:w,m:w,…|<bit>           (bit: the Next after the last yield returns false)
+    gen                            -> noisy|quiet
+-/
+import ChessVerif.Model.Board
+import ChessVerif.Model.MoveGen
+import ChessVerif.Model.Fen
+import ChessVerif.Model.Abs
+import ChessVerif.Model.See
+import ChessVerif.Model.Heur
+import ChessVerif.Model.Picker
+import ChessVerif.Spec.SeeMinimax
+
+open ChessVerif
+
+structure DS where
+  board : Board := Board.empty
+  ranker : Heur.Ranker := Heur.Ranker.new
+  stack : Heur.HStack := []
+
+def bstr (x : Bool) : String := if x then "1" else "0"
+
+def parseInt (s : String) : Int := s.toInt?.getD 0
+
+def capStr : SeeSpec.Cap → String
+  | .piece v => s!"p{v}"
+  | .king ok => s!"k{bstr ok}"
+
+def capsStr (l : List SeeSpec.Cap) : String :=
+  if l.isEmpty then "-" else String.intercalate "," (l.map capStr)
+
+def parsePairs (s : String) : List (Nat × Int) :=
+  if s == "-" || s == "" then [] else
+  (s.splitOn ",").map fun p =>
+    match p.splitOn ":" with
+    | [m, w] => (m.toNat!, parseInt w)
+    | _ => (0, 0)
+
+def parseStack (s : String) : Heur.HStack :=
+  if s == "-" || s == "" then [] else
+  (s.splitOn ",").map fun p =>
+    match p.splitOn ":" with
+    | [pc, to, sc] => { piece := pc.toNat!, to := to.toNat!, score := parseInt sc }
+    | _ => { piece := 1, to := 0, score := 0 }
+
+def wmStr (l : List Picker.WMove) : String :=
+  String.intercalate "," (l.map fun w => s!"{w.move}:{w.weight}")
+
+def movesStr (ms : List Move) : String := String.intercalate "," (ms.map toString)
+
+def repeatFH (r : Heur.Ranker) (d : Int) (b : Board) (ms : List (Nat × Int)) (st : Heur.HStack) : Nat → Heur.Ranker
+  | 0 => r
+  | n + 1 => repeatFH (Heur.failHigh r d b ms st) d b ms st n
+
+def step (st : DS) (line : String) : DS × String :=
+  let b := st.board
+  match line.splitOn " " with
+  | "fen" :: rest =>
+    match Fen.fromFEN Board.zeroKeys (String.intercalate " " rest).toUTF8.data with
+    | .ok nb => ({ st with board := nb }, "ok")
+    | .err => (st, "err")
+    | .panic => (st, "panic")
+  | ["valid"] => (st, bstr b.valid ++ bstr (Rules.epNormal b.abs))
+  | ["see", m, thrs] =>
+    let m := m.toNat!
+    let bits := String.join ((thrs.splitOn ",").map fun t => bstr (See.see b m (parseInt t)))
+    (st, s!"{bits} {SeeSpec.seeValue b m} {capsStr (See.capsOf b m)} {capsStr (SeeSpec.capsOf b m)}")
+  | ["new"] => ({ st with ranker := Heur.Ranker.new }, "ok")
+  | ["stack", s] => ({ st with stack := parseStack s }, "ok")
+  | ["fh", n, d, ms] =>
+    ({ st with ranker := repeatFH st.ranker (parseInt d) b (parsePairs ms) st.stack n.toNat! }, "ok")
+  | ["rank", m] =>
+    (st, s!"{Heur.rankNoisy st.ranker b m.toNat!} {Heur.rankQuiet st.ranker b st.stack m.toNat!}")
+  | ["pick", hm] =>
+    let hm := hm.toNat!
+    (st, wmStr (Picker.yieldedW b hm (Picker.rankOf st.ranker b st.stack)))
+  | ["pickx", hm] =>   -- also: does the call after the last yield return false (exhaustion)?
+    let hm := hm.toNat!
+    let rk := Picker.rankOf st.ranker b st.stack
+    let fin := Picker.runState b hm rk Picker.fuel Picker.init
+    (st, s!"{wmStr (Picker.yieldedW b hm rk)}|{bstr (!(Picker.next b hm rk fin).1)}")
+  | ["gen"] => (st, movesStr (MoveGen.genNoisy b) ++ "|" ++ movesStr (MoveGen.genNotNoisy b))
+  | _ => (st, "bad-op")
+
+partial def loop (h out : IO.FS.Stream) (st : DS) : IO Unit := do
   let line ← h.getLine
   if line.isEmpty then return ()
-  out.putStrLn "unimplemented"
+  let (st', ans) := step st (line.takeWhile (fun c => c != '\n' && c != '\r')).toString
+  out.putStrLn ans
   out.flush
-  loop h out
+  loop h out st'
 
-def main : IO Unit := do loop (← IO.getStdin) (← IO.getStdout)
+def main : IO Unit := do loop (← IO.getStdin) (← IO.getStdout) {}
